@@ -95,6 +95,12 @@ TEMPLATES = [
     ("struct_field", "px($a)", "a", False),
     ("struct_ix", "Pt(1, 2)[$a]", "a", False),
     ("struct_set", "(ps$n := Pt(1, 2); ps$n[$a] = $b; ps$n)", "ab", False),
+    # a struct of the same name but fewer fields declared in an inner scope, reached through the OUTER
+    # struct's field accessor (index 1 of a one-field instance must be refused, not indexed)
+    ("struct_shadow_get", "(\\pa -> (struct Pt (pz); py(Pt(pa))))($a)", "a", False),
+    ("struct_shadow_ix", "(\\pa -> (struct Pt (pz); Pt(pa)[py]))($a)", "a", False),
+    ("struct_shadow_set", "(\\pa -> (struct Pt (pz); pq := Pt(pa); pq[py] = $b; pq))($a)", "ab", False),
+    ("struct_shadow_op", "(\\pa -> (struct Pt (pz); pq := Pt(pa); pq[py] += 1; pq))($a)", "a", False),
     # explicit failures and control flow at top level
     ("throw", "throw $a", "a", False),
     ("break", "break", "", False),
